@@ -15,7 +15,7 @@ INERT_MODULE_PREFIXES = (
     "ast.", "pickletools.", "struct.", "re.", "json.", "io.", "collections.", "enum.", "abc.", "typing.", "argparse.",
     "stdlib_list.", "astunparse.", "warnings.", "itertools.", "functools.", "operator.", "string.", "textwrap.", "math.",
     "dataclasses.", "copy.", "types.", "contextlib.", "logging.", "sys.stderr.", "sys.stdout.", "sys.stdin.", "os.path.",
-    "object.", "Exception.", "ValueError.", "codecs.", "binascii.", "base64.", "hashlib.", "zlib.",
+    "object.", "Exception.", "ValueError.", "binascii.", "base64.", "hashlib.", "zlib.",
 )
 INERT_EXACT = {
     "sys.exit", "sys.getsizeof", "sys.version_info", "sys.argv", "sys.stdin", "sys.stdout", "sys.stderr", "sys.builtin_module_names",
